@@ -214,6 +214,10 @@ def pick_interval(rng, ts, te, bps, kind=None):
     """interval [a,b] with ends drawn from breakpoints / half points / edges; returns (a, b, kind)"""
     T = te - ts
     cand = sorted(set(list(bps) + [ts, te]))
+    if ts < 0.0 < te:
+        # the number 0 is a legitimate interval end of a recording that starts before 0 - and the value on which
+        # "x or default" / "if not x" idioms go wrong
+        cand = sorted(set(cand + [0.0]))
     halves = [(cand[k] + cand[k + 1]) / 2 for k in range(len(cand) - 1)]
     quarters = [cand[k] + (cand[k + 1] - cand[k]) / 4 for k in range(len(cand) - 1)] + \
                [cand[k] + 3 * (cand[k + 1] - cand[k]) / 4 for k in range(len(cand) - 1)]
